@@ -139,7 +139,8 @@ func ia5(s string) bool {
 
 func nameUTF8(n pkix.Name) bool {
 	for _, l := range [][]string{n.Country, n.Organization, n.OrganizationalUnit, n.Locality, n.Province, n.StreetAddress,
-		n.PostalCode, n.DomainComponent, n.EmailAddress, {n.SerialNumber, n.CommonName}} {
+		n.PostalCode, n.DomainComponent, n.EmailAddress, {n.SerialNumber, n.CommonName},
+		n.JurisdictionLocality, n.JurisdictionProvince, n.JurisdictionCountry, n.OrganizationIDs} {
 		for _, v := range l {
 			if !utf8.ValidString(v) {
 				return false
@@ -256,6 +257,14 @@ const (
 	oidPostal = "2.5.4.17"
 	oidDC     = "0.9.2342.19200300.100.1.25"
 	oidEmail  = "1.2.840.113549.1.9.1"
+	// attributes of the zcrypto fork's pkix.Name: CA/Browser Forum EV guidelines §9.2.4 (jurisdiction of
+	// incorporation), ETSI EN 319 412-1 / X.520 organizationIdentifier, X.520 surname and givenName
+	oidJurL    = "1.3.6.1.4.1.311.60.2.1.1"
+	oidJurST   = "1.3.6.1.4.1.311.60.2.1.2"
+	oidJurC    = "1.3.6.1.4.1.311.60.2.1.3"
+	oidOrgID   = "2.5.4.97"
+	oidSurname = "2.5.4.4"
+	oidGiven   = "2.5.4.42"
 )
 
 // expectName: the attributes a DN built from n carries (documentation of pkix.Name).
@@ -281,6 +290,10 @@ func expectName(n pkix.Name) []atv {
 	add(oidPostal, n.PostalCode...)
 	add(oidDC, n.DomainComponent...)
 	add(oidEmail, n.EmailAddress...)
+	add(oidJurL, n.JurisdictionLocality...)
+	add(oidJurST, n.JurisdictionProvince...)
+	add(oidJurC, n.JurisdictionCountry...)
+	add(oidOrgID, n.OrganizationIDs...)
 	for _, e := range n.ExtraNames {
 		add(e.Type.String(), fmt.Sprint(e.Value))
 	}
@@ -650,6 +663,9 @@ func (d *diffs) zName(fieldName string, want []atv, got pkix.Name) {
 		{"Province", oidST, got.Province}, {"StreetAddress", oidStreet, got.StreetAddress},
 		{"PostalCode", oidPostal, got.PostalCode}, {"DomainComponent", oidDC, got.DomainComponent},
 		{"EmailAddress", oidEmail, got.EmailAddress},
+		{"JurisdictionLocality", oidJurL, got.JurisdictionLocality}, {"JurisdictionProvince", oidJurST, got.JurisdictionProvince},
+		{"JurisdictionCountry", oidJurC, got.JurisdictionCountry}, {"OrganizationIDs", oidOrgID, got.OrganizationIDs},
+		{"GivenName", oidGiven, got.GivenName}, {"Surname", oidSurname, got.Surname},
 	} {
 		if !sameMultiset(valuesOf(want, f.oid), f.got) {
 			d.add(fieldName+"."+f.n, show(valuesOf(want, f.oid)), show(f.got))
@@ -1082,9 +1098,9 @@ func stdVerify(signKind int, alg x509.SignatureAlgorithm, der []byte) error {
 
 // issuerRes is how a scenario's issuer alternative resolves to call arguments and expectations.
 type issuerRes struct {
-	arg      *x509.Certificate // the parent argument of CreateCertificate
-	name     pkix.Name         // the issuer name the certificate must report
-	skid     []byte            // the parent's SubjectKeyId (nil when self-signed)
+	arg      *x509.Certificate        // the parent argument of CreateCertificate
+	name     pkix.Name                // the issuer name the certificate must report
+	skid     []byte                   // the parent's SubjectKeyId (nil when self-signed)
 	verifier func() *x509.Certificate // parsed CA certificate with that name and the signer's key (nil when self-signed)
 }
 
@@ -1118,8 +1134,14 @@ func resolveIssuer(s *scenario) issuerRes {
 		return issuerRes{arg: s.t, name: s.t.Subject}
 	case s.issuer == issByStruct:
 		kind, name := s.signKind, s.parentStruct.Subject
+		if cp := s.customParent; cp != nil { // name probe: the parsed CA of that name was minted by the probe itself
+			return issuerRes{arg: s.parentStruct, name: name, skid: s.parentStruct.SubjectKeyId, verifier: func() *x509.Certificate { return cp }}
+		}
 		return issuerRes{arg: s.parentStruct, name: name, skid: s.parentStruct.SubjectKeyId,
 			verifier: func() *x509.Certificate { return parsedCAFor(kind, name) }}
+	case s.issuer == issByCustom:
+		cp := s.customParent
+		return issuerRes{arg: cp, name: s.customName, skid: parentSKID, verifier: func() *x509.Certificate { return cp }}
 	}
 	p := parents[s.signKind][s.parentShape()]
 	return issuerRes{arg: p.cert, name: p.name, skid: p.skid, verifier: func() *x509.Certificate { return p.cert }}
@@ -1224,7 +1246,6 @@ func evaluateAs(live, model *scenario, namePaths bool) *result {
 	}
 	r.der = der
 
-
 	var zc *x509.Certificate
 	panicked, msg, site = ev.Try(func() { zc, err = x509.ParseCertificate(der) })
 	r.ops++
@@ -1293,7 +1314,9 @@ func evaluateAs(live, model *scenario, namePaths bool) *result {
 	// independent parser
 	sc, perr := stdx509.ParseCertificate(der)
 	if perr != nil {
-		class("stdlib crypto/x509 rejects the certificate (no cross-check): %s", ev.MsgClass(perr.Error()))
+		// 0 cases on the unchanged tree over the whole enumeration: every certificate issued from a template inside
+		// the documented domain is well-formed enough for the independent parser
+		viol("Go crypto/x509 (independent parser) rejects the certificate CreateCertificate issued: "+ev.MsgClass(perr.Error()), perr.Error()+" der="+hex.EncodeToString(der))
 	} else {
 		sv := compareStd(sc, e)
 		for _, v := range sv {
